@@ -380,3 +380,125 @@ Proof.
   induction offs as [|a offs IH]; intros p st HS; cbn [fold_left snd]; [apply RS_refl, HS|].
   eapply RS_step; [apply (trunc_one_RS a st HS)|]. intros S1. apply IH, S1.
 Qed.
+
+Lemma trunc_equalize_RS : forall fuel g offs lb th p st, SInv st ->
+  RS st (snd (trunc_equalize fuel g offs lb th p st)).
+Proof.
+  induction fuel as [|k IH]; intros g offs lb th p st HS; cbn [trunc_equalize].
+  - cbn [snd]. eapply RS_core; [apply RS_refl, HS | apply core_set_fuel].
+  - destruct (Nat.ltb g p && Nat.ltb th (pending_len lb st)); [|apply RS_refl, HS].
+    pose proof (trunc_fold_RS offs p st HS) as R1.
+    destruct (fold_left (fun '(p0, s) a => (Nat.pred p0, trunc_one a s)) offs (p, st)) as [p' st'] eqn:E.
+    cbn [snd] in R1. eapply RS_step; [exact R1|]. intros S1. apply IH, S1.
+Qed.
+
+Lemma trunc_phase1_RS : forall fuel g sp offs p st, SInv st ->
+  RS st (snd (trunc_phase1 fuel g sp offs p st)).
+Proof.
+  intros fuel g sp. induction sp as [|[n off] rest IH]; intros offs p st HS; cbn [trunc_phase1]; [apply RS_refl, HS|].
+  destruct (Nat.ltb g p); [|apply RS_refl, HS].
+  destruct (rev offs) as [|lb r]; [apply IH, HS|].
+  pose proof (trunc_equalize_RS fuel g offs lb (pending_len off st) p st HS) as R1.
+  destruct (trunc_equalize fuel g offs lb (pending_len off st) p st) as [p' st'] eqn:E.
+  cbn [snd] in R1. eapply RS_step; [exact R1|]. intros S1. apply IH, S1.
+Qed.
+
+Lemma trunc_phase2_RS : forall fuel g a offs lo p st, SInv st ->
+  RS st (snd (trunc_phase2 fuel g a offs lo p st)).
+Proof.
+  induction fuel as [|k IH]; intros g a offs lo p st HS; cbn [trunc_phase2].
+  - cbn [snd]. eapply RS_core; [apply RS_refl, HS | apply core_set_fuel].
+  - destruct (Nat.ltb g p && Nat.ltb a (pending_len lo st)); [|apply RS_refl, HS].
+    pose proof (trunc_fold_RS offs p st HS) as R1.
+    destruct (fold_left (fun '(p0, s) a0 => (Nat.pred p0, trunc_one a0 s)) offs (p, st)) as [p' st'] eqn:E.
+    cbn [snd] in R1. eapply RS_step; [exact R1|]. intros S1. apply IH, S1.
+Qed.
+
+(* truncatePending *)
+Lemma truncate_pending_RS : forall st, SInv st -> RS st (truncate_pending st).
+Proof.
+  intros st HS. unfold truncate_pending.
+  destruct (Nat.leb (pending_count st) (N.to_nat (c_gslots (p_cfg st)))); [apply RS_refl, HS|].
+  match goal with |- context [trunc_phase1 ?f ?g ?sp ?o ?p ?s] =>
+    pose proof (trunc_phase1_RS f g sp o p s HS) as R1; destruct (trunc_phase1 f g sp o p s) as [[offenders p1] st1] eqn:E end.
+  cbn [snd] in R1.
+  destruct (rev offenders) as [|lo r]; [exact R1|].
+  destruct (Nat.ltb (N.to_nat (c_gslots (p_cfg st))) p1); [|exact R1].
+  eapply RS_step; [exact R1|]. intros S1. apply trunc_phase2_RS, S1.
+Qed.
+
+(* ---------- splitting specs of the remaining list operations ---------- *)
+Lemma list_forward_spec : forall c s a l th rem l', lok c s a l -> list_forward th l = (rem, l') ->
+  lok c s a l' /\ (forall x, In x (l_txs l) <-> In x (l_txs l') \/ In x rem) /\
+  (forall x, In x rem -> ~ In x (l_txs l')) /\ (forall x, In x (l_txs l') -> th <= t_nonce x).
+Proof.
+  intros c s a l th rem l' L E. pose proof (list_forward_wf _ _ _ _ (lk_wf _ _ _ _ L) E) as W'.
+  unfold list_forward, sm_forward in E. inversion E; subst. cbn [with_txs l_txs] in *.
+  split; [|split; [|split]].
+  - split; [exact W' | apply (lk_strict _ _ _ _ L) |]. cbn [l_txs]. intros x Hx. apply filter_In in Hx. apply (lk_mem _ _ _ _ L), Hx.
+  - intros x. rewrite !filter_In. destruct (t_nonce x <? th); cbn [negb]; intuition discriminate.
+  - intros x Hx Hk. apply filter_In in Hx. apply filter_In in Hk. destruct Hx as [_ Hx]. destruct Hk as [_ Hk]. rewrite Hx in Hk. discriminate.
+  - intros x Hx. apply filter_In in Hx. destruct Hx as [_ Hx]. apply negb_true_iff, N.ltb_ge in Hx. exact Hx.
+Qed.
+
+Lemma filter_split {A} (f : A -> bool) (l : list A) x :
+  In x l <-> In x (filter f l) \/ In x (filter (fun t => negb (f t)) l).
+Proof. rewrite !filter_In. destruct (f x); cbn [negb]; intuition discriminate. Qed.
+Lemma filter_disj {A} (f : A -> bool) (l : list A) x :
+  In x (filter f l) -> ~ In x (filter (fun t => negb (f t)) l).
+Proof. rewrite !filter_In. intros [_ H1] [_ H2]. rewrite H1 in H2. discriminate. Qed.
+
+Lemma list_filter_spec : forall c s a l cl gl rem inv l', lok c s a l -> list_filter cl gl l = (rem, inv, l') ->
+  lok c s a l' /\ (forall x, In x (l_txs l) <-> In x (l_txs l') \/ In x rem \/ In x inv) /\
+  (forall x, In x rem \/ In x inv -> ~ In x (l_txs l')) /\ (forall x, In x rem -> ~ In x inv) /\
+  (s = false -> inv = []) /\ sorted inv /\
+  (forall x, In x (l_txs l') -> cost x <= cl /\ t_gas x <= gl).
+Proof.
+  intros c s a l cl gl rem inv l' L E.
+  pose proof (list_filter_wf _ _ _ _ _ _ (lk_wf _ _ _ _ L) E) as W'.
+  pose proof (fun x => list_filter_affordable _ _ _ _ _ _ x (lk_wf _ _ _ _ L) E) as Haff.
+  unfold list_filter in E.
+  destruct ((l_costcap l <=? cl) && (l_gascap l <=? gl)).
+  { inversion E; subst. split; [exact L|]. split; [intros x; cbn; tauto|]. split; [intros x [[]|[]]|].
+    split; [intros x []|]. split; [reflexivity|]. split; [constructor | exact Haff]. }
+  unfold sm_filter in E. set (f := fun t => (gl <? t_gas t) || (cl <? cost t)) in *.
+  destruct (filter f (l_txs l)) as [|r0 rr] eqn:Er.
+  { inversion E; subst. cbn [l_txs] in *. split; [split; [exact W' | apply (lk_strict _ _ _ _ L) | apply (lk_mem _ _ _ _ L)]|].
+    split; [intros x; cbn; tauto|]. split; [intros x [[]|[]]|].
+    split; [intros x []|]. split; [reflexivity|]. split; [constructor | exact Haff]. }
+  rewrite <- Er in E. clear Er. set (rest := filter (fun t => negb (f t)) (l_txs l)) in *.
+  pose proof (lk_strict _ _ _ _ L) as Hst. rewrite Hst in E. destruct s.
+  - set (g := fun t => fold_left (fun m t0 => N.min m (t_nonce t0)) (filter f (l_txs l)) (2 ^ 64 - 1) <? t_nonce t) in *.
+    inversion E; subst rem inv l'; clear E. cbn [l_txs] in *.
+    split; [split; [exact W' | reflexivity |]|].
+    { cbn [l_txs]. intros x Hx. apply filter_In in Hx. destruct Hx as [Hx _]. apply filter_In in Hx. apply (lk_mem _ _ _ _ L), Hx. }
+    split; [intros x; rewrite (filter_split f (l_txs l) x); fold rest; rewrite (filter_split g rest x); tauto|].
+    split; [intros x [H|H] Hk; [apply (filter_disj f (l_txs l) x H); fold rest; apply filter_In in Hk; tauto | apply (filter_disj g rest x H Hk)]|].
+    split; [intros x H1 H2; apply (filter_disj f (l_txs l) x H1); fold rest; apply filter_In in H2; tauto|].
+    split; [discriminate|]. split; [apply sorted_filter, sorted_filter, (lw_sorted _ (lk_wf _ _ _ _ L)) | exact Haff].
+  - inversion E; subst rem inv l'; clear E. cbn [l_txs] in *.
+    split; [split; [exact W' | reflexivity |]|].
+    { cbn [l_txs]. intros x Hx. apply filter_In in Hx. apply (lk_mem _ _ _ _ L), Hx. }
+    split; [intros x; rewrite (filter_split f (l_txs l) x); fold rest; cbn [In]; tauto|].
+    split; [intros x [H|[]] Hk; apply (filter_disj f (l_txs l) x H Hk)|].
+    split; [intros x _ []|]. split; [reflexivity|]. split; [constructor | exact Haff].
+Qed.
+
+Lemma list_ready_spec : forall c s a l start rdy l', lok c s a l -> list_ready start l = (rdy, l') ->
+  lok c s a l' /\ (forall x, In x (l_txs l) <-> In x (l_txs l') \/ In x rdy) /\
+  (forall x, In x rdy -> ~ In x (l_txs l')) /\ sorted rdy.
+Proof.
+  intros c s a l start rdy l' L E. pose proof (list_ready_wf _ _ _ _ (lk_wf _ _ _ _ L) E) as W'.
+  unfold list_ready in E. destruct (sm_ready start (l_txs l)) as [x1 x2] eqn:Er. inversion E; subst rdy l'; clear E.
+  cbn [with_txs l_txs] in *.
+  assert (Hsplit : l_txs l = x1 ++ x2).
+  { unfold sm_ready in Er. destruct (l_txs l) as [|y r] eqn:El; [inversion Er; reflexivity|].
+    destruct (start <? t_nonce y); [inversion Er; reflexivity|]. eapply sm_run_split, Er. }
+  pose proof (lw_sorted _ (lk_wf _ _ _ _ L)) as Hso. rewrite Hsplit in Hso.
+  pose proof (sorted_NoDup _ Hso) as Hnd.
+  split; [|split; [|split]].
+  - split; [exact W' | apply (lk_strict _ _ _ _ L) |]. cbn [l_txs]. intros x Hx. apply (lk_mem _ _ _ _ L). rewrite Hsplit. apply in_or_app. right. exact Hx.
+  - intros x. rewrite Hsplit, in_app_iff. tauto.
+  - intros x Hx. eapply NoDup_app_disj; eassumption.
+  - apply sorted_app in Hso. tauto.
+Qed.
